@@ -108,6 +108,59 @@ def mapped_plans(c, kk, acc):
     return suffixes(init, canon(init), kk)
 
 
+def _nested_fluent(x, inside=False):
+    if isinstance(x, tuple):
+        if len(x) >= 2 and x[0] == "f" and isinstance(x[1], str):
+            if inside:
+                return True
+            return any(_nested_fluent(y, True) for y in x[2:])
+        return any(_nested_fluent(y, inside) for y in x)
+    return False
+
+
+def root_cause(key, ref, mp):
+    """Root causes of the recorded findings (known_findings.json), decided on the failing
+    mapped-back plan itself: a violation gets the root-cause fingerprint only when the plan
+    really exercises the documented defect; every other unsound plan keeps the ordinary
+    fingerprint (sub-oracle | minimal deviation set) and is reported.
+      ncrm  an executed step adds AND deletes one ground Boolean fluent (f and not_f both end true)
+      dcrm  an executed step fires an increase/decrease whose condition is a disjunction with two
+            true disjuncts (the split conditional effects both fire)
+      tcrm  a trajectory constraint / invariant reads a fluent nested in a fluent argument
+            (regression matches fluent expressions syntactically)"""
+    from mc.ref.eval import ev, Bottom
+
+    if key == "tcrm":
+        return "nested-fluent-in-constraint" if _nested_fluent((ref.ps.get("traj", ()),)) else None
+    if key not in ("ncrm", "dcrm"):
+        return None
+    st = ref.initial_state()
+    for an, args in mp:
+        a = ref.actions[an]
+        params = dict(zip([pn for pn, _ in a["params"]], args))
+        try:
+            if key == "ncrm":
+                seen = {}
+                for tgt, kind, val in ref.fired_effects(st, a["eff"], params):
+                    if kind == "assign" and isinstance(val, bool):
+                        seen.setdefault(tgt, set()).add(val)
+                if any(len(v) == 2 for v in seen.values()):
+                    return "add-and-delete"
+            else:
+                I = ref.interp(st, params)
+                for kind, fl, val, cond, fa in a["eff"]:
+                    if kind in ("inc", "dec") and cond is not None and cond[0] == "or" and not fa:
+                        if sum(1 for d in cond[1:] if ev(d, I) is True) >= 2:
+                            return "overlapping-increase"
+        except Bottom:
+            return None
+        nxt, _ = ref.apply(st, an, args)
+        if nxt is None:
+            return None
+        st = nxt
+    return None
+
+
 def check_case(key, cid, k, acc):
     c = cc.Compiled(key, cid, acc)
     if not c.ok:
@@ -143,8 +196,9 @@ def check_case(key, cid, k, acc):
         elif not cc.Compiled.traj_ok(c.ref, states):
             why = "trajectory-constraint"
         if why is not None:
+            root = root_cause(key, c.ref, mp)
             acc.violation(
-                "unsound:%s:%s|%s" % (why, key, lab),
+                ("unsound:%s|root=%s" % (key, root)) if root else "unsound:%s:%s|%s" % (why, key, lab),
                 "a valid plan of the compiled problem maps back to %s, which is invalid for the original (%s)" % (list(mp), why),
                 dict(case, mapped=[[a, list(b)] for a, b in mp]),
             )
